@@ -30,8 +30,19 @@ def run(c, chk):
 
     # ---- R11.1 ------------------------------------------------------------------------------
     comparers = set()
+
+    def cmp_calls(f):
+        # calls of strcmp()/strcasecmp(), also through a pointer that is one of the two (picked once by the case flag)
+        from . import c14 as _c14x
+        out = list(f.calls('strcmp')) + list(f.calls('strcasecmp'))
+        for call in f.calls():
+            if call.callee_name() is None and call.callee.kind == 'reg':
+                fld = _c14x.fnptr_field(f, call.callee)
+                if fld.startswith('const:') and ('@strcmp' in fld or '@strcasecmp' in fld):
+                    out.append(call)
+        return out
     for f in mod.funcs.values():
-        for call in list(f.calls('strcmp')) + list(f.calls('strcasecmp')):
+        for call in cmp_calls(f):
             for a in call.args:
                 if loads_field(f, a, '%struct.cfg_opt_t', 'name'):
                     comparers |= set(c.owners(f.name))
@@ -40,8 +51,10 @@ def run(c, chk):
         if h.name not in c.unknown_funcs:
             continue
         pos = set()
-        for call in list(h.calls('strcmp')) + list(h.calls('strcasecmp')):
+        for call in cmp_calls(h):
             for a in call.args:
+                if loads_field(h, a, '%struct.cfg_opt_t', 'name'):
+                    comparers |= set(c.owners(h.name))
                 if a.kind == 'reg' and a.name in [p_.name for p_ in h.params]:
                     pos.add([p_.name for p_ in h.params].index(a.name))
         if not pos:
@@ -74,12 +87,16 @@ def run(c, chk):
                 chk.fail('R11.1', 'prefix-match:%s' % sorted(c.owners(f.name))[0], c.where(call),
                          '%s() compares only the first len characters of an option name with a path step and never checks that the name ends there: '
                          'a step "net" also selects an option called "network"' % f.name)
-    leaf_callers = sorted(set(o for f in c.all_funcs() for _ in f.calls('cfg_getopt_leaf') for o in c.owners(f.name)))
-    if leaf_callers != ['cfg_getopt_secidx']:
+    sec = c.need('cfg_getopt_secidx')
+    # the one walker: the function (the resolver itself, or a helper split off it) whose loop takes a path apart step by step
+    walker = step_loop(c, sec)[0].name
+    direct = sorted(set(f.name for f in c.all_funcs() for _ in f.calls('cfg_getopt_leaf')))
+    stray = [n_ for n_ in direct if n_ != walker and not any(True for _ in c.func(n_).calls(walker))]
+    if stray:
+        leaf_callers = sorted(set(o for n_ in stray for o in c.owners(n_)))
         chk.fail('R11.1', 'leaf-callers:%s' % ','.join(leaf_callers), c.where(c.need('cfg_getopt_leaf')), 'the leaf lookup is called from %s, not only from the resolver' % leaf_callers)
     else:
-        chk.ok('R11.1', 'callers of cfg_getopt_leaf', 'cfg_getopt_secidx only')
-    sec = c.need('cfg_getopt_secidx')
+        chk.ok('R11.1', 'callers of cfg_getopt_leaf', '%s only (the step loop, and what finishes a path that loop has walked)' % ', '.join(direct))
     callees = set(x.callee_name() for x in c.deep_calls(sec))
     for need, what in (('cfg_opt_getnsec', 'an index qualifier'), ('cfg_opt_gettsecidx', 'a title qualifier'), ('parse_title', 'title unquoting')):
         if need in callees:
@@ -101,7 +118,7 @@ def run(c, chk):
                 continue      # not part of the by-name API the rule was confirmed on (a helper split off later)
             nby += 1
             reach = _cfg.transitive(c.callgraph, [f.name])
-            if 'cfg_getopt_secidx' not in reach:
+            if walker not in reach:
                 chk.fail('R11.1', 'bypass:%s' % f.name, c.where(f), '%s(cfg, name, ...) does not resolve its name through the resolver' % f.name)
     chk.ok('R11.1', '%d public by-name functions' % nby, 'each reaches the option through cfg_getopt()/cfg_getopt_secidx()', sample=True)
     chk.floor('R11.1 public by-name functions', nby, 25)
@@ -163,11 +180,30 @@ def run(c, chk):
     chk.rule('R11.6', 'a tokenizer cursor never steps over a byte that was not shown to be different from the terminator')
     nsteps = 0
     for fname, prefer in (('cfg_getopt_secidx', 'name'), ('cfg_getopt_array', 'name'), ('parse_title', 'ch')):
-        f = c.need(fname)
-        heads = sorted(_cfg.natural_loops(f))
-        if not heads:
+        f0 = c.need(fname)
+        # the tokenizer's loops: in the function itself or in a helper split off it; a walk that calls itself on the rest of
+        # the path instead of looping is judged by the same rule (the argument it passes on is the cursor's next value)
+        sites = [(g_, h_) for g_ in c.deep_funcs(f0) for h_ in sorted(_cfg.natural_loops(g_))]
+        rec = []
+        for g_ in c.deep_funcs(f0):
+            pos = [k for k, p_ in enumerate(g_.params) if g_.param_names.get(p_.name) == prefer]
+            if pos and any(True for _ in g_.calls(g_.name)) and not _cfg.natural_loops(g_):
+                for p in ex.explore(g_):
+                    for e in p.events:
+                        if e.kind == 'call' and e.name == g_.name and len(e.args) > pos[0]:
+                            rec.append((g_, p, e.args[pos[0]]))
+        if rec:
+            nloops += 1
+            badr = next(((g_, p, a) for g_, p, a in rec if not advances(p, a, ('p', prefer))), None)
+            if badr is not None:
+                g_, p, a = badr
+                chk.fail('R11.3', 'no-progress:%s' % fname, c.where(g_), '%s() calls itself on %s, which is not provably beyond the position it was given: '
+                         'a path string can make the lookup recurse forever' % (g_.name, sym.render(a)), witness=['path condition: ' + fp.cond_text(p, 6)])
+            else:
+                chk.ok('R11.3', '%s: walks on by calling itself' % fname, '%d recursive call paths, each passes on a position beyond its own' % len(rec), sample=True)
+        if not sites and not rec:
             raise report.Broken('%s(): no loop found' % fname)
-        for h in heads:
+        for f, h in sites:
             paths = [p for p in _loops.iterate(ex, f, h) if p.end == 'stop']
             if not paths:
                 continue
@@ -234,8 +270,8 @@ def run(c, chk):
     secf = c.need('cfg_getopt_secidx')
     nstep = 0
     bad7 = None
-    for h in _loops.loops_over(secf, 'name'):
-        for p in _loops.iterate(ex, secf, h):
+    for stepf7, h in [step_loop(c, secf)]:
+        for p in _loops.iterate(ex, stepf7, h):
             if p.end != 'stop':
                 continue
             nxt = p.next.get('sec')
@@ -269,13 +305,10 @@ def run(c, chk):
 
     # ---- R11.5: qualifiers ------------------------------------------------------------------------
     chk.rule('R11.5', 'an index qualifier must be a whole numeral, and every step starts without an instance index (no carry-over between steps)')
-    hdrs = _loops.loops_over(sec, 'name')
-    if not hdrs:
-        raise report.Broken('cfg_getopt_secidx(): step loop not found')
-    hdr = hdrs[-1]
+    stepf, hdr = step_loop(c, sec)
     nq = 0
     badq = None
-    for p in _loops.iterate(ex, sec, hdr):
+    for p in _loops.iterate(ex, stepf, hdr):
         if p.end == 'cut':
             continue
         # (a) strtol result used as the instance index only when the whole qualifier was consumed
@@ -329,6 +362,20 @@ def run(c, chk):
             chk.ok('R11.4', fname, 'passes (opt, index) to %s(), which rejects a NULL option before looking at the index' % callee, nontrivial=False)
         else:
             chk.fail('R11.4', 'caller-shape:%s' % fname, c.where(f), '%s() no longer resolves through cfg_getopt_secidx() + %s()' % (fname, callee))
+
+
+def step_loop(c, secf):
+    """(function, loop header) of the loop that takes a path apart step by step: the outermost loop - in the resolver or in a
+    helper split off it - in which the name of a step is looked up"""
+    leafs = ('cfg_getopt_leaf',)
+    for g in c.deep_funcs(secf):
+        loops = _cfg.natural_loops(g)
+        cands = [h for h, body in loops.items() if any(i.op == 'call' and i.callee_name() in leafs for b in body for i in g.blocks[b].instrs)]
+        if cands:
+            # outermost: the one whose body contains the others
+            cands.sort(key=lambda h: -len(loops[h]))
+            return g, cands[0]
+    raise report.Broken('cfg_getopt_secidx(): step loop not found')
 
 
 def qualifier_extent(c, chk, ex, sec):
